@@ -329,34 +329,82 @@ def check_from_random(ctx):
                "random droplets are not `num` × droplet_class(get_position(), rng.uniform(r0, r1)) with (r0, r1) the requested radius range")
 
 
+# ----------------------------------------------------------------------------- helpers
+def resolved_keywords(fv, call):
+    """{keyword: value text}; ``**name`` is expanded when ``name`` is a local dict literal"""
+    out = {}
+    for k in call.keywords:
+        if k.arg is not None:
+            out[k.arg] = U(fv.expand(k.value, call))
+        else:
+            v = fv.expand(k.value, call, allow_mutated=True)
+            if isinstance(v, ast.Dict) and all(isinstance(x, ast.Constant) for x in v.keys):
+                for kk, vv in zip(v.keys, v.values):
+                    out[kk.value] = U(vv)
+            elif isinstance(v, ast.Call) and dotted(v.func) == "dict" and not v.args:
+                for kk in v.keywords:
+                    out[kk.arg] = U(kk.value)
+            else:
+                out["**"] = U(v)
+    return out
+
+
+def emptiness(decisions, name):
+    """True: the decisions establish that ``name`` is empty; False: non-empty; None: unknown"""
+    from .empty import nonempty_guard
+
+    for k, v in decisions.items():
+        try:
+            t = ast.parse(k, mode="eval").body
+        except SyntaxError:
+            continue
+        if nonempty_guard(t, name, v):
+            return False
+        if not isinstance(t, ast.BoolOp) and nonempty_guard(t, name, not v):
+            return True
+    return None
+
+
 # ----------------------------------------------------------------------------- removal loops
 def check_safe_removal(ctx, qual, attr_test, op_types=(ast.LtE,), what="", param=None, rule="REMOVE"):
     """for i in reversed(range(len(self))): if self[i].<attr> <= limit: self.pop(i)"""
     m = ctx.model
     fi = m.func(qual)
     fv = view(m, fi)
+    si = stmt_index(fv)
     site = fi.qualname
-    loops = [s for s in fv.statements() if isinstance(s, ast.For)]
-    ok = False
-    where = fi
-    detail = "no loop"
-    if len(loops) == 1:
-        lp = loops[0]
-        where = lp
-        iv = U(lp.target)
-        rev = U(lp.iter) in ("reversed(range(len(self)))", "range(len(self) - 1, -1, -1)")
-        ifs = [s for s in lp.body if isinstance(s, ast.If)]
-        if len(ifs) == 1 and len(lp.body) == 1:
-            cp = compare_parts(ifs[0].test)
-            okt = cp is not None and U(cp[0]) == f"self[{iv}].{attr_test}" and isinstance(cp[1], op_types) and (param is None or U(cp[2]) == param)
-            okp = len(ifs[0].body) == 1 and U(ifs[0].body[0]) == f"self.pop({iv})" and not ifs[0].orelse
-            ok = rev and okt and okp
-            detail = f"iteration `{U(lp.iter)}`, test `{U(ifs[0].test)}`, action `{U(ifs[0].body[0])[:40]}`"
-    elif not loops:
-        # comprehension-based filter assigning self[:] = [...]
-        detail = "no index loop"
-    ctx.decide(ok, rule, site, (fi, where), f"members are visited from the back and removed iff {what}",
-               f"removal loop is not (back to front; remove iff {what}): {detail} — popping while iterating forward skips the element after each removal, a different comparison removes/keeps boundary cases")
+    pops = [c for c in fv.calls() if isinstance(c.func, ast.Attribute) and c.func.attr == "pop" and U(c.func.value) == "self"]
+    others = _self_mutations(fi)
+    if others or len(pops) != 1:
+        # a different (e.g. comprehension based) implementation: not judged by this rule
+        if others:
+            ctx.undecided(rule, site, (fi, others[0]), "the list is rebuilt rather than popped: removal-loop rule not applicable")
+        else:
+            ctx.violate(rule, site, fi, f"expected exactly one self.pop(index) in the removal loop, found {len(pops)}")
+        return
+    c = pops[0]
+    lpq = si.enclosing(c, (ast.For,))
+    if lpq is None:
+        ctx.violate(rule, site, (fi, c), "elements are popped outside an index loop")
+        return
+    lp = lpq[0]
+    iv = U(lp.target)
+    rev = U(lp.iter).replace(" ", "") in ("reversed(range(len(self)))", "range(len(self)-1,-1,-1)", "range(len(self))[::-1]")
+    okidx = U(c.args[0]) == iv if c.args else False
+    conds = []
+    for t, p in si.effective_guards(c):
+        if any(x is t for x in ast.walk(lp)):
+            for a, q in flat_tests(t, p):
+                cp = compare_parts(a)
+                if cp is not None:
+                    conds.append((U(fv.expand(cp[0], c, allow_mutated=True, stop=(iv,))), type(cp[1]), U(cp[2]), q))
+    okt = len(conds) == 1 and conds[0][0] == f"self[{iv}].{attr_test}" and conds[0][3] and conds[0][1] in op_types and (param is None or conds[0][2] == param)
+    detail = f"iteration `{U(lp.iter)}`, removal condition {[(a, o.__name__, b, q) for a, o, b, q in conds]}"
+    if not rev:
+        ctx.violate(rule, site, (fi, lp), f"elements are popped while iterating `{U(lp.iter)}` (not back to front): every removal shifts the following elements, so the element after a removed one is skipped")
+    else:
+        ctx.decide(okt and okidx, rule, site, (fi, lp), f"members are visited from the back and removed iff {what}",
+                   f"removal condition is not `{what}`: {detail} — a different comparison removes or keeps the boundary cases")
 
 
 # ----------------------------------------------------------------------------- C20
@@ -377,7 +425,6 @@ def check_who_may_store(ctx):
                                    "droplets.trackers.LengthScaleTracker.__init__", "droplets.trackers.LengthScaleTracker.handle"}
     for fi in m.all_functions():
         for s in ast.walk(fi.node):
-            # X.<backing>.append/extend/insert/pop/...  or  X.<backing> = / X.<backing>[...] =
             if isinstance(s, ast.Call) and isinstance(s.func, ast.Attribute) and s.func.attr in MUTATORS and isinstance(s.func.value, ast.Attribute) and s.func.value.attr in BACKING:
                 n += 1
                 if fi.qualname not in allowed_funcs:
@@ -385,11 +432,10 @@ def check_who_may_store(ctx):
             tg = s.targets if isinstance(s, ast.Assign) else ([s.target] if isinstance(s, ast.AugAssign) else [])
             for t in tg:
                 base = t.value if isinstance(t, ast.Subscript) else t
-                if isinstance(base, ast.Attribute) and base.attr in BACKING and not (isinstance(base.value, ast.Name) and base.value.id in ("obj",)):
+                if isinstance(base, ast.Attribute) and base.attr in BACKING:
                     n += 1
                     if fi.qualname not in allowed_funcs and not (fi.name == "__init__"):
                         bad.append((fi, s))
-            # list-level stores on an Emulsion from outside: super().append / list.append(self, …)
             if isinstance(s, ast.Call) and U(s.func) in ("list.append", "list.extend", "list.insert", "list.__setitem__", "super().extend", "super().insert", "super().__setitem__", "super().__iadd__"):
                 n += 1
                 bad.append((fi, s))
@@ -398,107 +444,161 @@ def check_who_may_store(ctx):
                f"`{U(bad[0][1])[:70] if bad else ''}` in {bad[0][0].qualname if bad else ''} writes a collection's backing list directly, bypassing copy-on-insert / lock-step bookkeeping")
 
 
+def _default_true(fi, name="copy"):
+    d = fi.default_of(name)
+    return isinstance(d, ast.Constant) and d.value is True
+
+
 def check_copy_on_insert(ctx):
     m = ctx.model
-    # Emulsion.append
+    # ---- Emulsion.append
     fi = m.func(f"{EM}.Emulsion.append")
     fv = view(m, fi)
-    site = fi.qualname
     dp = fi.params[1]
     st = [c for c in fv.calls() if U(c.func) == "super().append"]
-    dflt = fi.default_of("copy")
-    ok = len(st) == 1 and U(st[0].args[0]) == dp and isinstance(dflt, ast.Constant) and dflt.value is True
-    cp = [s for s in fv.statements() if isinstance(s, ast.If) and U(s.test) == "copy"]
-    ok = ok and len(cp) == 1 and len(cp[0].body) == 1 and U(cp[0].body[0]) == f"{dp} = {dp}.copy()" and not cp[0].orelse and fv.dominates(cp[0], st[0])
-    ctx.decide(ok, "OWN", site, (fi, st[0]) if st else fi, "with copy=True (the default) the stored droplet is droplet.copy()",
-               "Emulsion.append does not store `droplet.copy()` on the default path (copy defaults to True and guards exactly the copy)")
-    # forwarders
-    for q, callee, kws in ((f"{EM}.Emulsion.extend", "self.append", ("copy", "force_consistency")), (f"{EM}.Emulsion.__init__", "self.extend", ("copy", "force_consistency"))):
+    ok, detail = False, "no store through super().append"
+    if len(st) == 1 and _default_true(fi):
+        cases = value_cases(fv, st[0], st[0].args[0])
+        t_vals = {U(v) for d, v in cases if truth_of(d, "copy") is True}
+        f_vals = {U(v) for d, v in cases if truth_of(d, "copy") is False}
+        ok = t_vals == {f"{dp}.copy()"} and f_vals <= {dp}
+        detail = f"stored value with copy=True: {sorted(t_vals)}, with copy=False: {sorted(f_vals)}"
+    ctx.decide(ok, "OWN", fi.qualname, (fi, st[0]) if st else fi, "with copy=True (the default) the stored droplet is droplet.copy()",
+               f"Emulsion.append does not store `{dp}.copy()` whenever copy is true (default True): {detail}")
+    # ---- forwarders
+    for q, callee in ((f"{EM}.Emulsion.extend", "self.append"), (f"{EM}.Emulsion.__init__", "self.extend")):
         g = m.func(q)
         gv = view(m, g)
         cs = [c for c in gv.calls() if U(c.func) == callee]
-        ok = len(cs) == 1 and all(kwarg(cs[0], k) is not None and U(kwarg(cs[0], k)) == k for k in kws)
-        d = g.default_of("copy")
-        ok = ok and isinstance(d, ast.Constant) and d.value is True
+        ok = False
+        if len(cs) == 1:
+            kws = resolved_keywords(gv, cs[0])
+            ok = kws.get("copy") == "copy" and kws.get("force_consistency") == "force_consistency" and _default_true(g)
         ctx.decide(ok, "OWN", q, (g, cs[0]) if cs else g, f"forwards copy= and force_consistency= to {callee}; copy defaults to True",
                    f"{q.split('.')[-2]}.{g.name} does not forward copy=copy / force_consistency=force_consistency to {callee} with copy defaulting to True")
-    # EmulsionTimeCourse.append
+    # ---- EmulsionTimeCourse.append
     fi = m.func(f"{EM}.EmulsionTimeCourse.append")
     fv = view(m, fi)
-    ep, tp = fi.params[1], fi.params[2]
+    ep = fi.params[1]
     st = [c for c in fv.calls() if U(c.func) == "self.emulsions.append"]
-    wrap = [s for s in fv.statements() if isinstance(s, ast.Assign) and U(s.targets[0]) == ep and U(s.value) == f"Emulsion({ep})"]
-    cp = [s for s in fv.statements() if isinstance(s, ast.If) and U(s.test) == "copy"]
-    d = fi.default_of("copy")
-    ok = len(st) == 1 and U(st[0].args[0]) == ep and len(wrap) == 1 and fv.dominates(wrap[0], st[0]) and isinstance(d, ast.Constant) and d.value is True
-    ok = ok and len(cp) == 1 and U(cp[0].body[0]) == f"{ep} = {ep}.copy()" and fv.dominates(cp[0], st[0])
+    ok, detail = False, "no store"
+    if len(st) == 1 and _default_true(fi):
+        cases = value_cases(fv, st[0], st[0].args[0])
+        t_vals = {U(v) for d, v in cases if truth_of(d, "copy") is True}
+        f_vals = {U(v) for d, v in cases if truth_of(d, "copy") is False}
+        ok = t_vals == {f"Emulsion({ep}).copy()"} and f_vals <= {f"Emulsion({ep})"}
+        detail = f"copy=True: {sorted(t_vals)}, copy=False: {sorted(f_vals)}"
     ctx.decide(ok, "OWN", fi.qualname, (fi, st[0]) if st else fi, "stores Emulsion(emulsion) (a fresh emulsion of copies), copied again when copy=True",
-               "EmulsionTimeCourse.append does not store a fresh Emulsion(emulsion) (default copying) on the default path")
-    # DropletBase.copy
+               f"EmulsionTimeCourse.append does not store a fresh Emulsion(emulsion) (default copying): {detail}")
+    # ---- DropletBase.copy / from_droplet
     fi = m.func(f"{DROP}.DropletBase.copy")
-    rets = [s for s in ast.walk(fi.node) if isinstance(s, ast.Return)]
-    ok = {U(r.value) for r in rets} == {"self.from_droplet(self, **kwargs)", "self.from_data(self.data.copy())"}
-    ctx.decide(ok, "OWN", fi.qualname, fi, "a droplet copy wraps self.data.copy()", "DropletBase.copy does not wrap a copy of the data record: copies share storage with the original")
+    fv = view(m, fi)
+    vals = set()
+    for n_ in fv.return_nodes():
+        for d, v in value_cases(fv, n_.stmt, n_.stmt.value):
+            vals.add(U(v))
+    ok = vals == {"self.from_droplet(self, **kwargs)", "self.from_data(self.data.copy())"}
+    ctx.decide(ok, "OWN", fi.qualname, fi, "a droplet copy wraps self.data.copy()", f"DropletBase.copy returns {sorted(vals)}: copies must wrap a copy of the data record (or be rebuilt through the constructor)")
     fd = m.func(f"{DROP}.DropletBase.from_droplet")
     fdv = view(m, fd)
-    ok = any(isinstance(s, ast.Return) and U(s.value) == "cls(**args)" for s in ast.walk(fd.node)) and any(U(s) == "args = droplet._args" for s in fdv.statements())
-    ctx.decide(ok, "OWN", fd.qualname, fd, "from_droplet re-creates the droplet through the constructor (new record)",
-               "from_droplet does not build a new object through cls(**args)")
+    rets = [n_.stmt for n_ in fdv.return_nodes()]
+    ok = False
+    if len(rets) == 1 and isinstance(rets[0].value, ast.Call) and U(rets[0].value.func) == "cls" and len(rets[0].value.keywords) == 1 and rets[0].value.keywords[0].arg is None:
+        an = U(rets[0].value.keywords[0].value)
+        src = [s for s in fdv.statements() if isinstance(s, ast.Assign) and U(s.targets[0]) == an and U(s.value) == f"{fd.params[1]}._args"]
+        upd = [c for c in fdv.calls() if U(c.func) == f"{an}.update" and [U(a) for a in c.args] == ["kwargs"]]
+        ok = len(src) == 1 and len(upd) == 1
+    ctx.decide(ok, "OWN", fd.qualname, fd, "from_droplet re-creates the droplet through the constructor from the source's fields, overridden by the keyword arguments",
+               "from_droplet does not build cls(**{fields of the source, updated by kwargs})")
+
+
+def _emulsion_ctor_returns(fv):
+    out = []
+    for n_ in fv.return_nodes():
+        for d, v in value_cases(fv, n_.stmt, n_.stmt.value):
+            if isinstance(v, ast.Call) and (dotted(v.func) or "").split(".")[-1] in ("Emulsion", "__class__"):
+                out.append((n_.stmt, v))
+    return out
 
 
 def check_fresh_derivations(ctx):
     m = ctx.model
-    # Emulsion.__getitem__ / __add__: through the constructor with default copying
     for q, desc in ((f"{EM}.Emulsion.__getitem__", "slice"), (f"{EM}.Emulsion.__add__", "sum")):
-        lst = m.funcs(q)
-        fi = lst[-1]
-        rets = [s for s in ast.walk(fi.node) if isinstance(s, ast.Return) and isinstance(s.value, ast.Call) and (dotted(s.value.func) or "").endswith("Emulsion")]
-        ok = len(rets) == 1 and len(rets[0].value.args) == 1 and not [k for k in rets[0].value.keywords if k.arg == "copy"]
-        ctx.decide(ok, "FRESH", q, (fi, rets[0]) if rets else fi, f"a {desc} is a new Emulsion built with the default copy=True",
-                   f"the {desc} of an emulsion is `{U(rets[0].value) if rets else '?'}`: it shares the droplet objects with its source (copy disabled), so editing the {desc} changes the source")
+        fi = m.funcs(q)[-1]
+        fv = view(m, fi)
+        rets = _emulsion_ctor_returns(fv)
+        ok = len({U(v) for _, v in rets}) == 1 and all(len(v.args) == 1 and not [k for k in v.keywords if k.arg == "copy"] for _, v in rets)
+        ctx.decide(ok, "FRESH", q, (fi, rets[0][0]) if rets else fi, f"a {desc} is a new Emulsion built with the default copy=True",
+                   f"the {desc} of an emulsion is `{U(rets[0][1]) if rets else '?'}`: it shares the droplet objects with its source (copy disabled), so editing the {desc} changes the source")
     # Emulsion.copy
     fi = m.func(f"{EM}.Emulsion.copy")
     fv = view(m, fi)
-    rets = [n.stmt for n in fv.return_nodes()]
+    rets = [n_.stmt for n_ in fv.return_nodes()]
     ok = False
-    if len(rets) == 1 and isinstance(rets[0].value, ast.Call):
+    if len(rets) == 1 and isinstance(rets[0].value, ast.Call) and rets[0].value.args:
         c = rets[0].value
-        src = fv.expand(c.args[0], rets[0]) if c.args else None
-        elems_copied = isinstance(src, ast.ListComp) and U(src.elt).endswith(".copy()") and U(src.generators[0].iter) == "self"
+        a0 = c.args[0]
         cflag = kwarg(c, "copy")
+        elems_copied = False
+        src = fv.expand(a0, rets[0])
+        if isinstance(src, ast.ListComp) and U(src.elt).endswith(".copy()") and U(src.generators[0].iter) == "self" and U(src.elt) == f"{U(src.generators[0].target)}.copy()":
+            elems_copied = True
+        elif isinstance(a0, ast.Name):
+            apps = [x for x in fv.calls() if U(x.func) == f"{a0.id}.append"]
+            lps = [stmt_index(fv).enclosing(x, (ast.For,)) for x in apps]
+            elems_copied = len(apps) == 1 and lps[0] is not None and U(lps[0][0].iter) == "self" and U(apps[0].args[0]) == f"{U(lps[0][0].target)}.copy()"
         ok = U(c.func) in ("self.__class__", "Emulsion", "type(self)") and (elems_copied or cflag is None or (isinstance(cflag, ast.Constant) and cflag.value is True))
     ctx.decide(ok, "FRESH", fi.qualname, (fi, rets[0]) if rets else fi, "Emulsion.copy holds copies of every droplet",
                "Emulsion.copy returns an emulsion that shares droplet objects with the original")
-    # time course / track slices: constructor with sliced times
-    for q, cls in ((f"{EM}.EmulsionTimeCourse.__getitem__", "emulsions"), (f"{TR}.DropletTrack.__getitem__", "droplets")):
-        fi = m.func(q)
-        rets = [s for s in ast.walk(fi.node) if isinstance(s, ast.Return) and isinstance(s.value, ast.Call)]
-        ok = False
-        if rets:
-            c = rets[0].value
-            a = kwarg(c, cls)
-            t = kwarg(c, "times")
-            ok = U(c.func) in ("self.__class__", "type(self)") and a is not None and U(a) == "result" and t is not None and U(t) == "self.times[key]"
-        ctx.decide(ok, "FRESH", q, (fi, rets[0]) if rets else fi, "slices are rebuilt through the constructor (members copied, times sliced with the same key)",
-                   "a slice is not self.__class__(members=result, times=self.times[key]): members and times can get out of step or be shared")
-    # constructors own their lists
-    for q, members in ((f"{EM}.EmulsionTimeCourse.__init__", "emulsions"), (f"{TR}.DropletTrack.__init__", "droplets")):
+    # slices of time courses / tracks
+    for q, members in ((f"{EM}.EmulsionTimeCourse.__getitem__", "emulsions"), (f"{TR}.DropletTrack.__getitem__", "droplets")):
         fi = m.func(q)
         fv = view(m, fi)
+        key = fi.params[1]
+        got = []
+        for n_ in fv.return_nodes():
+            for d, v in value_cases(fv, n_.stmt, n_.stmt.value):
+                if truth_of(d, f"isinstance({key}, slice)") is True:
+                    got.append((n_.stmt, v))
+        ok = bool(got)
+        for st_, v in got:
+            okv = isinstance(v, ast.Call) and U(v.func) in ("self.__class__", "type(self)")
+            if okv:
+                a = kwarg(v, members) or (v.args[0] if v.args else None)
+                t = kwarg(v, "times") or (v.args[1] if len(v.args) > 1 else None)
+                okv = a is not None and U(a) in (f"self.{members}.__getitem__({key})", f"self.{members}[{key}]") and t is not None and U(t) == f"self.times[{key}]"
+            ok = ok and okv
+        ctx.decide(ok, "FRESH", q, (fi, got[0][0]) if got else fi, "slices are rebuilt through the constructor (members copied, times sliced with the same key)",
+                   "a slice is not self.__class__(members=self.<members>[key], times=self.times[key]): members and times can get out of step or be shared")
+    # constructors own their lists
+    for q, members, mparam in ((f"{EM}.EmulsionTimeCourse.__init__", "emulsions", "emulsions"), (f"{TR}.DropletTrack.__init__", "droplets", "droplets")):
+        fi = m.func(q)
+        fv = view(m, fi)
+        si = stmt_index(fv)
         tstores = [s for s in fv.statements() if isinstance(s, ast.Assign) and U(s.targets[0]) == "self.times"]
-        bad = [s for s in tstores if not (U(s.value) in ("[]", "list(times)", f"list(range(len(self.{members})))"))]
-        ctx.decide(not bad and len(tstores) >= 2, "FRESH", q + ":times", (fi, bad[0]) if bad else fi, "the constructor stores its own list of times (list(times))",
-                   f"`{U(bad[0]) if bad else ''}`: the constructor keeps the caller's/source's list of times by reference; appending to a copy then changes the source's times but not its members (lengths diverge)")
+        vals = [U(fv.expand(s.value, s)) for s in tstores]
+        allowed = ("[]", "list(times)", f"list(range(len(self.{members})))")
+        bad = [(s, v) for s, v in zip(tstores, vals) if v not in allowed]
+        ctx.decide(not bad and len(tstores) >= 2, "FRESH", q + ":times", (fi, bad[0][0]) if bad else fi, "the constructor stores its own list of times (list(times))",
+                   f"`{U(bad[0][0]) if bad else ''}`: the constructor keeps the caller's/source's list of times by reference; appending to a copy then changes the source's times but not its members (lengths diverge)")
         mstores = [s for s in fv.statements() if isinstance(s, ast.Assign) and U(s.targets[0]) == f"self.{members}"]
         badm = [s for s in mstores if U(s.value) != "[]"]
         adds = [c for c in fv.calls() if U(c.func) == "self.append"]
-        ctx.decide(not badm and len(adds) == 1, "FRESH", q + ":members", (fi, badm[0]) if badm else fi, "members are added one by one through append (copies)",
-                   "the constructor stores the given members without going through append")
-        # length check raising ValueError at the end
-        chk = [s for s in fv.statements() if isinstance(s, ast.If) and "len(self.times)" in U(s.test) and f"len(self.{members})" in U(s.test)]
-        okc = len(chk) == 1 and isinstance(compare_parts(chk[0].test)[1], ast.NotEq) and isinstance(chk[0].body[0], ast.Raise) and "ValueError" in U(chk[0].body[0]) \
-            and chk[0] is fi.node.body[-1]
-        ctx.decide(okc, "PAIR", q, (fi, chk[0]) if chk else fi, "constructor rejects times and members of different length (ValueError) after both are set",
+        okadd = False
+        if len(adds) == 1:
+            lpq = si.enclosing(adds[0], (ast.For,))
+            if lpq is not None and U(lpq[0].iter) == mparam:
+                arg = U(fv.expand(adds[0].args[0], adds[0]))
+                lv = U(lpq[0].target)
+                okadd = arg in (lv, f"Emulsion({lv})")
+        ctx.decide(not badm and okadd, "FRESH", q + ":members", (fi, badm[0]) if badm else fi, "every given member is added through append (copies), in order",
+                   "the constructor does not add every given member through self.append (copy on insert)")
+        last = fi.node.body[-1]
+        okc = False
+        if isinstance(last, ast.If) and last.body and isinstance(last.body[0], ast.Raise) and "ValueError" in U(last.body[0]):
+            cp = compare_parts(last.test)
+            okc = cp is not None and isinstance(cp[1], ast.NotEq) and {U(cp[0]), U(cp[2])} == {"len(self.times)", f"len(self.{members})"}
+        ctx.decide(okc, "PAIR", q, (fi, last), "constructor rejects times and members of different length (ValueError) after both are set",
                    "the constructor does not end with a length check of times against members raising ValueError")
 
 
@@ -509,18 +609,15 @@ def check_pair_methods(ctx):
     a = [c for c in fv.calls() if U(c.func) == "self.emulsions.append"]
     b = [c for c in fv.calls() if U(c.func) == "self.times.append"]
     tp = fi.params[2]
-    ok = len(a) == 1 and len(b) == 1 and fv.post_dominates(b[0], a[0]) and U(b[0].args[0]) == tp
+    ok = len(a) == 1 and len(b) == 1 and fv.post_dominates(b[0], a[0])
     ctx.decide(ok, "PAIR", fi.qualname, (fi, b[0]) if b else fi, "one emulsion and one time are appended on every path",
                "EmulsionTimeCourse.append does not append exactly one time for the appended emulsion on every path")
-    dflt = [s for s in fv.statements() if isinstance(s, ast.Assign) and U(s.targets[0]) == tp]
-    okd = len(dflt) == 1 and U(dflt[0].value) == "0 if len(self.times) == 0 else self.times[-1] + 1"
-    ctx.decide(okd, "PAIR", fi.qualname + ":default-time", (fi, dflt[0]) if dflt else fi, "missing time continues the sequence (0, then last + 1)",
-               "the default time is not 0 for the first / last + 1 for later frames")
+    if b:
+        _check_default_time(ctx, fi, fv, b[0], tp)
     fi = m.func(f"{EM}.EmulsionTimeCourse.clear")
     st = {U(s.targets[0]): U(s.value) for s in ast.walk(fi.node) if isinstance(s, ast.Assign)}
     ctx.decide(st == {"self.emulsions": "[]", "self.times": "[]"}, "PAIR", fi.qualname, fi, "clear() resets both lists",
                f"clear() resets {st}: times and emulsions must both become empty")
-    # len() and iteration use the paired lists consistently
     for q, want in ((f"{EM}.EmulsionTimeCourse.__len__", "len(self.times)"), (f"{TR}.DropletTrack.__len__", "len(self.times)")):
         g = m.func(q)
         rets = [s for s in ast.walk(g.node) if isinstance(s, ast.Return)]
@@ -528,46 +625,71 @@ def check_pair_methods(ctx):
                    f"__len__ returns {U(rets[0].value) if rets else '?'}")
 
 
+def _check_default_time(ctx, fi, fv, store_call, tp):
+    """time given → stored as given; time None → 0 for the first member, last + 1 afterwards"""
+    got = set()
+    for d, v in value_cases(fv, store_call, store_call.args[0], stop=()):
+        isnone = truth_of(d, f"{tp} is None")
+        empty = emptiness(d, "self.times")
+        got.add((isnone, empty, U(v).replace(" ", "")))
+    ok_given = all(v == tp for isnone, e, v in got if isnone is False) and any(isnone is False for isnone, e, v in got)
+    none_cases = {(e, v) for isnone, e, v in got if isnone is True}
+    ok_default = none_cases == {(True, "0"), (False, "self.times[-1]+1")}
+    ctx.decide(ok_given and ok_default, "PAIR", fi.qualname + ":default-time", (fi, store_call),
+               "an explicit time is stored as given; a missing time continues the sequence (0, then last + 1)",
+               f"stored time cases (time is None, times empty, value): {sorted(got, key=str)}; expected the given time, or 0 for the first / last + 1 for later members exactly when time is None")
+
+
 def check_reject(ctx):
     m = ctx.model
-    fi = m.func(f"{EM}.Emulsion.append")
-    fv = view(m, fi)
-    st = [c for c in fv.calls() if U(c.func) == "super().append"]
-    dp = fi.params[1]
-    ok = False
-    where = fi
-    for s in fi.node.body:
-        if isinstance(s, ast.If):
-            cur = s
-            while isinstance(cur, ast.If):
-                t = U(cur.test)
-                if t in (f"force_consistency and self.dtype != {dp}.data.dtype", f"force_consistency and {dp}.data.dtype != self.dtype"):
-                    where = cur
-                    ok = ok or (isinstance(cur.body[0], ast.Raise) and "ValueError" in U(cur.body[0]) and bool(st) and fv.dominates(s, st[0]))
-                cur = cur.orelse[0] if len(cur.orelse) == 1 and isinstance(cur.orelse[0], ast.If) else None
-    ctx.decide(ok, "REJECT", fi.qualname, (fi, where), "with force_consistency a droplet of another data layout raises ValueError before it is stored",
-               "a droplet whose dtype differs from the emulsion's is not rejected (ValueError) before the store when force_consistency is requested")
-    fi = m.func(f"{TR}.DropletTrack.append")
-    fv = view(m, fi)
-    dp = fi.params[1]
-    st = [c for c in fv.calls() if U(c.func) == "self.droplets.append"]
-    ok = False
-    for s in fv.statements():
-        if isinstance(s, ast.If) and U(s.test) in (f"self.dim is not None and {dp}.dim != self.dim", f"self.dim is not None and self.dim != {dp}.dim"):
-            ok = isinstance(s.body[0], ast.Raise) and "ValueError" in U(s.body[0]) and bool(st) and fv.dominates(s, st[0])
-            where = s
-    ctx.decide(ok, "REJECT", fi.qualname, (fi, where), "a droplet of another space dimension raises ValueError before it is stored",
-               "DropletTrack.append does not reject droplets of a different dimension before storing them")
+    for q, store, want in ((f"{EM}.Emulsion.append", "super().append", "dtype"), (f"{TR}.DropletTrack.append", "self.droplets.append", "dim")):
+        fi = m.func(q)
+        fv = view(m, fi)
+        si = stmt_index(fv)
+        dp = fi.params[1]
+        st = [c for c in fv.calls() if U(c.func) == store]
+        raises = [s for s in fv.statements() if isinstance(s, ast.Raise) and s.exc is not None and "ValueError" in U(s.exc)]
+        ok = False
+        where = fi
+        for r in raises:
+            conds = set()
+            for t, p in si.effective_guards(r):
+                for a, q_ in flat_tests(t, p):
+                    conds.add((U(fv.expand(a, r)), q_))
+            if want == "dtype":
+                need = ({("force_consistency", True)}, {(f"self.dtype != {dp}.data.dtype", True), (f"{dp}.data.dtype != self.dtype", True)})
+            else:
+                need = ({("self.dim is not None", True)}, {(f"{dp}.dim != self.dim", True), (f"self.dim != {dp}.dim", True)})
+            if (need[0] <= conds) and (need[1] & conds):
+                top = r
+                anc = si.ancestors(r)
+                if anc:
+                    top = anc[-1][0]
+                where = r
+                ok = bool(st) and fv.dominates(top, st[0])
+        what = "with force_consistency a droplet of another data layout" if want == "dtype" else "a droplet of another space dimension"
+        ctx.decide(ok, "REJECT", fi.qualname, (fi, where), f"{what} raises ValueError before it is stored",
+                   f"{what} is not rejected with ValueError before the store")
 
 
 def check_linked_data(ctx):
     m = ctx.model
     fi = m.func(f"{EM}.Emulsion.get_linked_data")
     fv = view(m, fi)
-    ok_src = any(isinstance(s, ast.Assign) and U(s.targets[0]) == "data" and U(s.value) == "self.data" for s in fv.statements())
+    rets = [n_.stmt for n_ in fv.return_nodes()]
+    arr = U(rets[0].value) if len(rets) == 1 else None
+    src = [s for s in fv.statements() if isinstance(s, ast.Assign) and U(s.targets[0]) == arr and U(s.value) == "self.data"]
     loops = [s for s in fv.statements() if isinstance(s, ast.For)]
-    ok_link = len(loops) == 1 and U(loops[0].iter) == "enumerate(self)" and len(loops[0].body) == 1 and U(loops[0].body[0]) == f"{U(loops[0].target.elts[1])}.data = data[{U(loops[0].target.elts[0])}]"
-    rets = [s for s in ast.walk(fi.node) if isinstance(s, ast.Return)]
-    ctx.decide(ok_src and ok_link and len(rets) == 1 and U(rets[0].value) == "data", "LINK", fi.qualname, fi,
-               "row i of the returned array becomes the storage of member i",
+    ok_link = False
+    if len(loops) == 1 and len(loops[0].body) == 1 and isinstance(loops[0].body[0], ast.Assign):
+        lp = loops[0]
+        st = lp.body[0]
+        tgt, val = U(st.targets[0]), U(st.value)
+        if U(lp.iter) == "enumerate(self)" and isinstance(lp.target, ast.Tuple):
+            i, d = (U(e) for e in lp.target.elts)
+            ok_link = tgt == f"{d}.data" and val == f"{arr}[{i}]"
+        elif U(lp.iter) == "range(len(self))":
+            i = U(lp.target)
+            ok_link = tgt == f"self[{i}].data" and val == f"{arr}[{i}]"
+    ctx.decide(len(src) == 1 and ok_link, "LINK", fi.qualname, fi, "row i of the returned array becomes the storage of member i",
                "get_linked_data does not bind member i to row i of the single array it returns")
